@@ -49,7 +49,13 @@ func (c *rawClient) do(req *http.Request) rawResp {
 	}
 	defer resp.Body.Close()
 	body, err := io.ReadAll(resp.Body)
-	return rawResp{status: resp.StatusCode, clen: resp.ContentLength, body: body, fast: time.Since(t0) < fastWithin, err: err}
+	// only a long poll (maxwaitsec > 0) has a latency the protocol speaks about; everything else is "fast" by definition
+	// (a loaded machine may need a second for a 10 000-blob page)
+	fast := true
+	if mw := req.URL.Query().Get("maxwaitsec"); mw != "" && mw != "0" {
+		fast = time.Since(t0) < fastWithin
+	}
+	return rawResp{status: resp.StatusCode, clen: resp.ContentLength, body: body, fast: fast, err: err}
 }
 
 func transportErr(ev gate.Event, rr rawResp) gate.Event {
